@@ -165,6 +165,18 @@ def build():
         raise GenError("nsec3_hash: iteration digest is %s" % m.group(2))
     defs.append(("hash_iter_from", "N", N(int(m.group(1)))))
     defs.append(("hash_salt_after_data", "bool", B(True)))
+    # the canonical form: only ToName's default compose_canonical exists (no representation
+    # overrides it) and Label::compose_canonical lower-cases every octet
+    tr = strip_comments(read("src/base/name/traits.rs"))
+    tn = impl_body(tr, r"pub\s+trait\s+ToName\s*:\s*ToLabelIter\s*\{")
+    one(r"^\s*for\s+label\s+in\s+self\.iter_labels\(\)\s*\{\s*label\.compose_canonical\(\s*target\s*\)\?\s*;\s*\}\s*Ok\(\(\)\)\s*$", fn_body(tn, "compose_canonical"), "ToName::compose_canonical default")
+    for f in ("absolute.rs", "parsed.rs", "chain.rs", "relative.rs", "uncertain.rs"):
+        src_f = strip_comments(read("src/base/name/" + f))
+        if re.search(r"fn\s+compose_canonical\s*<", src_f):
+            raise GenError("base/name/%s overrides compose_canonical" % f)
+    lb = strip_comments(read("src/base/name/label.rs"))
+    one(r"target\.append_slice\(\s*&\[\s*self\.len\(\)\s+as\s+u8\s*\]\s*\)\?\s*;\s*for\s+ch\s+in\s+self\.into_iter\(\)\s*\{\s*target\.append_slice\(\s*&\[\s*ch\.to_ascii_lowercase\(\)\s*\]\s*\)\?\s*;\s*\}", fn_body(lb, "compose_canonical"), "Label::compose_canonical lower-cases")
+    defs.append(("hash_owner_lowercased", "bool", B(True)))
     # ---------------------------------------------------------- TTL / class of the generated records
     n_expect = len(re.findall(r"Rrset::check_ttls\(&slice\)\.expect\(", rs_))
     if n_expect == 3:
